@@ -203,6 +203,9 @@ def closure_contracts(txt, specs, key):
                 i += 1
             b1 = i
             body = "{ " + out[b0:b1].rstrip() + " }"
+        if sp.get("prelude"):
+            # bindings that the replaced parameter pattern introduced (e.g. `|(l, s)|` -> `|p| { let (l, s) = ..; body }`)
+            body = "{ " + sp["prelude"] + " " + body + " }"
         out = out[:p0] + sp["header"] + "\n" + body + out[b1:]
     return out
 
